@@ -133,7 +133,7 @@ def _callers_define(ctx, gf, reach, f, g, depth=0):
 
 def rule_b(ctx, out):
     gf, reach = facts(ctx)
-    ig = ctx.func(f"{GO}.init_globals")
+    ig = ctx.global_initialiser(GO, 25)
     per_sub = set(gf.must[ig.qual])
     if len(per_sub) < 25:
         raise AnalysisError("init_globals resets fewer than 25 globals")
